@@ -26,6 +26,7 @@ Inductive scase :=
 | STx (full : string)            (* a transaction message: registered, signer resolves *)
 | SSrc (file : string)           (* the .proto text against the descriptors *)
 | SDep (full : string)           (* an imported message (Coin, PageRequest, ...): wire projection *)
+| SGrpc (full : string)          (* the grpc.ServiceDesc of a service, in both families' Go code *)
 | SNone.
 
 Definition find_file (name : string) (fs : list file) : option file :=
@@ -111,6 +112,22 @@ Definition check_static (c : scase) : Z * Z * Z :=
   | SDep full =>
       let pr fs := find (fun p => seqb (fst p) full) (wire_proj fs) in
       (-1, opt_diff (fun x y => if Prelude.eqb x y then (-1)%Z else 0%Z) (pr gogo_deps) (pr pulsar_deps), 14)%Z
+  | SGrpc full =>
+      let fg (l : list gsvc) := find (fun g => seqb (g_name g) full) l in
+      let want := fg (grpc_proj pulsar_files) in
+      let same (a b : option gsvc) :=
+        match a, b with
+        | Some x, Some y =>
+            if Prelude.eqb x y then (-1)%Z
+            else let d := first_diff (fun p q : string * string * bool * bool => Prelude.eqb p q)
+                                     (g_methods x) (g_methods y) 0%Z in
+                 if (0 <=? d)%Z then d else Z.of_nat (length (g_methods x))
+        | None, None => (-1)%Z
+        | _, _ => 0%Z
+        end in
+      let dg := same (fg gogo_grpc) want in
+      let dp := same (fg pulsar_grpc) want in
+      (-1, (if (0 <=? dg)%Z then dg else dp), 15)%Z
   | SNone => (-1, -1, 0)%Z
   end.
 
